@@ -84,6 +84,69 @@ namespace Clamp
 def pre_clamp_integer := bytes 32
 end Clamp
 
+namespace Avx2Field
+/-! AVX2 backend (`backend/vector/avx2/field.rs`): a `FieldElement2625x4 = [u32x8; 5]` is 40 u32 lanes; lane
+`8 i + j` is lane `j` of vector `i`.  Lane order inside a vector (see `new` / `split`):
+`(a_{2i}, b_{2i}, a_{2i+1}, b_{2i+1}, c_{2i}, d_{2i}, c_{2i+1}, d_{2i+1})`, i.e. positions 0,1,4,5 hold the even
+(26-bit) limb `2i` and positions 2,3,6,7 the odd (25-bit) limb `2i+1` of the four field elements A,B,C,D. -/
+/-- nominal bit size of the limb held in lane `j` (0 ≤ j < 40) -/
+def laneBits (j : Nat) : Nat := if (j % 8 / 2) % 2 = 0 then 26 else 25
+/-- 40 lanes bounded with excess `b` where `2^b ≈ num/den` (rounded DOWN: the contract is the documented
+`lane < 2^(bits + b)` intersected with the integers, up to the rounding of `2^b` to the given decimals) -/
+def lanes (num den : Nat) : List Itv := (List.range 40).map (fun j => ub (2 ^ laneBits j * num / den - 1))
+/-- any forty u32 lanes -/
+def anyU32 : List Itv := rep 40 (ub (2 ^ 32 - 1))
+/-- lane-wise `≤` the five given constant vectors -/
+def leVecs (vs : List (List Nat)) : List Itv := (vs.flatMap id).map ub
+/-- `new`: four `FieldElement51` (limbs `< 2^54`, the serial u64 contract).  (Also passes for limbs `< 2^58`; from
+`2^58` on the `as u32` of the high half truncates.) -/
+def pre_new := rep 20 (ub (2 ^ 54 - 1))
+def pre_split := anyU32
+/-- documented: `b < 0.999` (`2^0.999 = 1.99861…`) -/
+def pre_negate_lazy := lanes 1998 1000
+/-- documented: `b < 0.01` (`2^0.01 = 1.006955…`) -/
+def pre_diff_sum := lanes 10069 10000
+/-- no documented precondition: any u32 lanes -/
+def pre_reduce := anyU32
+/-- documented: `b < 4.0`, which is NOT sufficient (lane `< 2^30` does not imply lane `≤ 16 p`-limb
+`= 2^30 - 304` resp. `2^30 - 16`, `2^29 - 16`).  The contract is the exact requirement: every lane `≤` the
+corresponding lane of `(16p, 16p, 16p, 16p)`. -/
+def pre_neg := leVecs (let lo := Dalek.Gen.Consts.Avx2.P_TIMES_16_LO; let hi := Dalek.Gen.Consts.Avx2.P_TIMES_16_HI
+  [lo, hi, hi, hi, hi])
+/-- no documented precondition: lane-wise sum must fit in a u32; here both operands `< 2^31` -/
+def pre_add := rep 80 (ub (2 ^ 31 - 1))
+/-- no documented precondition ("small constants"): any u32 lanes, scalars `< 2^31`
+(with arbitrary u32 scalars the carry chain of `reduce64` can wrap) -/
+def pre_mul_consts := anyU32 ++ rep 4 (ub (2 ^ 31 - 1))
+/-- documented: `b < 1.5` (`2^1.5 = 2.82842…`) -/
+def pre_square_and_negate_D := lanes 2828 1000
+/-- documented: first operand `b < 2.5` (`2^2.5 = 5.65685…`), second operand `b < 1.75` (`2^1.75 = 3.36358…`) -/
+def pre_mul := lanes 5656 1000 ++ lanes 3363 1000
+/-- no documented precondition (the comments argue with `z[i] < 2^64`); the carry chain needs room for one
+carry `< 2^39` in every lane: `z[i] ≤ 2^64 - 2^39` -/
+def pre_reduce64 := rep 40 (ub (2 ^ 64 - 2 ^ 39))
+def pre_conditional_select := anyU32 ++ anyU32 ++ [ub 1]
+def pre_conditional_assign := anyU32 ++ anyU32 ++ [ub 1]
+def pre_shuffle_AAAA := anyU32
+def pre_shuffle_BBBB := anyU32
+def pre_shuffle_CACA := anyU32
+def pre_shuffle_DBBD := anyU32
+def pre_shuffle_ADDA := anyU32
+def pre_shuffle_CBCB := anyU32
+def pre_shuffle_ABAB := anyU32
+def pre_shuffle_BADC := anyU32
+def pre_shuffle_BACD := anyU32
+def pre_shuffle_ABDC := anyU32
+def pre_blend_C := anyU32 ++ anyU32
+def pre_blend_D := anyU32 ++ anyU32
+def pre_blend_AB := anyU32 ++ anyU32
+def pre_blend_AC := anyU32 ++ anyU32
+def pre_blend_CD := anyU32 ++ anyU32
+def pre_blend_AD := anyU32 ++ anyU32
+def pre_blend_BC := anyU32 ++ anyU32
+def pre_blend_ABCD := anyU32 ++ anyU32
+end Avx2Field
+
 /-- (module, kernel name, program, pre-condition).
 Not listed: the composed Scalar29 items `from_bytes_wide, mul, square, montgomery_mul, as_montgomery`: their
 Karatsuba `mul_internal` uses wrapping subtraction whose non-wrapping is a relational fact that an interval
@@ -132,7 +195,38 @@ def kernels : List (String × String × Prog × List Itv) := [
   ("Scalar29", "montgomery_reduce", Dalek.Gen.Scalar29.montgomery_reduce, Scalar29.pre_montgomery_reduce),
   ("Scalar29", "montgomery_square", Dalek.Gen.Scalar29.montgomery_square, Scalar29.pre_montgomery_square),
   ("Scalar29", "from_montgomery", Dalek.Gen.Scalar29.from_montgomery, Scalar29.pre_from_montgomery),
-  ("Clamp", "clamp_integer", Dalek.Gen.Clamp.clamp_integer, Clamp.pre_clamp_integer)
+  ("Clamp", "clamp_integer", Dalek.Gen.Clamp.clamp_integer, Clamp.pre_clamp_integer),
+  ("Avx2Field", "new", Dalek.Gen.Avx2Field.new, Avx2Field.pre_new),
+  ("Avx2Field", "split", Dalek.Gen.Avx2Field.split, Avx2Field.pre_split),
+  ("Avx2Field", "negate_lazy", Dalek.Gen.Avx2Field.negate_lazy, Avx2Field.pre_negate_lazy),
+  ("Avx2Field", "diff_sum", Dalek.Gen.Avx2Field.diff_sum, Avx2Field.pre_diff_sum),
+  ("Avx2Field", "reduce", Dalek.Gen.Avx2Field.reduce, Avx2Field.pre_reduce),
+  ("Avx2Field", "neg", Dalek.Gen.Avx2Field.neg, Avx2Field.pre_neg),
+  ("Avx2Field", "add", Dalek.Gen.Avx2Field.add, Avx2Field.pre_add),
+  ("Avx2Field", "mul_consts", Dalek.Gen.Avx2Field.mul_consts, Avx2Field.pre_mul_consts),
+  ("Avx2Field", "square_and_negate_D", Dalek.Gen.Avx2Field.square_and_negate_D, Avx2Field.pre_square_and_negate_D),
+  ("Avx2Field", "mul", Dalek.Gen.Avx2Field.mul, Avx2Field.pre_mul),
+  ("Avx2Field", "reduce64", Dalek.Gen.Avx2Field.reduce64, Avx2Field.pre_reduce64),
+  ("Avx2Field", "conditional_select", Dalek.Gen.Avx2Field.conditional_select, Avx2Field.pre_conditional_select),
+  ("Avx2Field", "conditional_assign", Dalek.Gen.Avx2Field.conditional_assign, Avx2Field.pre_conditional_assign),
+  ("Avx2Field", "shuffle_AAAA", Dalek.Gen.Avx2Field.shuffle_AAAA, Avx2Field.pre_shuffle_AAAA),
+  ("Avx2Field", "shuffle_BBBB", Dalek.Gen.Avx2Field.shuffle_BBBB, Avx2Field.pre_shuffle_BBBB),
+  ("Avx2Field", "shuffle_CACA", Dalek.Gen.Avx2Field.shuffle_CACA, Avx2Field.pre_shuffle_CACA),
+  ("Avx2Field", "shuffle_DBBD", Dalek.Gen.Avx2Field.shuffle_DBBD, Avx2Field.pre_shuffle_DBBD),
+  ("Avx2Field", "shuffle_ADDA", Dalek.Gen.Avx2Field.shuffle_ADDA, Avx2Field.pre_shuffle_ADDA),
+  ("Avx2Field", "shuffle_CBCB", Dalek.Gen.Avx2Field.shuffle_CBCB, Avx2Field.pre_shuffle_CBCB),
+  ("Avx2Field", "shuffle_ABAB", Dalek.Gen.Avx2Field.shuffle_ABAB, Avx2Field.pre_shuffle_ABAB),
+  ("Avx2Field", "shuffle_BADC", Dalek.Gen.Avx2Field.shuffle_BADC, Avx2Field.pre_shuffle_BADC),
+  ("Avx2Field", "shuffle_BACD", Dalek.Gen.Avx2Field.shuffle_BACD, Avx2Field.pre_shuffle_BACD),
+  ("Avx2Field", "shuffle_ABDC", Dalek.Gen.Avx2Field.shuffle_ABDC, Avx2Field.pre_shuffle_ABDC),
+  ("Avx2Field", "blend_C", Dalek.Gen.Avx2Field.blend_C, Avx2Field.pre_blend_C),
+  ("Avx2Field", "blend_D", Dalek.Gen.Avx2Field.blend_D, Avx2Field.pre_blend_D),
+  ("Avx2Field", "blend_AB", Dalek.Gen.Avx2Field.blend_AB, Avx2Field.pre_blend_AB),
+  ("Avx2Field", "blend_AC", Dalek.Gen.Avx2Field.blend_AC, Avx2Field.pre_blend_AC),
+  ("Avx2Field", "blend_CD", Dalek.Gen.Avx2Field.blend_CD, Avx2Field.pre_blend_CD),
+  ("Avx2Field", "blend_AD", Dalek.Gen.Avx2Field.blend_AD, Avx2Field.pre_blend_AD),
+  ("Avx2Field", "blend_BC", Dalek.Gen.Avx2Field.blend_BC, Avx2Field.pre_blend_BC),
+  ("Avx2Field", "blend_ABCD", Dalek.Gen.Avx2Field.blend_ABCD, Avx2Field.pre_blend_ABCD)
 ]
 
 end Dalek.Model.Contracts
